@@ -147,6 +147,10 @@ def parse_spec(unit):
                 cur["note"] = rest
             elif w == "object_bits":
                 cur["object_bits"] = int(rest)
+            elif w == "noflag":
+                cur.setdefault("noflags", []).append(rest)
+            elif w == "goto_cc":
+                cur.setdefault("goto_cc", []).extend(rest.split())
             elif w == "nocover":
                 cur["nocover"] = True
             else:
@@ -311,13 +315,17 @@ def cbmc_job(u, sp, job, workdir, tier):
     inc = ["-I", os.path.join(VERIF, "spec")]
     use_dfcc = enforced is not None or replaced or job.get("loops")
     cmdlog = []
-    if use_dfcc:
-        cmd = ["goto-cc", "--function", entry, "-o", base + ".a.gb", path] + inc
+    use_gb = use_dfcc or job.get("goto_cc")
+    if use_gb:
+        cmd = ["goto-cc", "--function", entry, "-o", base + ".a.gb", path] + inc + job.get("goto_cc", [])
         cmdlog.append(" ".join(cmd))
         rc, so, se, dt = run(cmd, timeout=120)
         if rc != 0:
             res["reason"] = "goto-cc failed: " + (se + so)[-2000:]
             return res
+    if use_gb and not use_dfcc:
+        target = [base + ".a.gb"]
+    elif use_dfcc:
         cmd = ["goto-instrument", "--dfcc", entry]
         if enforced:
             cmd += ["--enforce-contract", enforced]
@@ -336,7 +344,8 @@ def cbmc_job(u, sp, job, workdir, tier):
         target = [path, "--function", entry] + inc
     cmd = ["cbmc"] + target + ["--bounds-check", "--pointer-check", "--pointer-overflow-check", "--signed-overflow-check",
                                "--undefined-shift-check", "--div-by-zero-check", "--pointer-primitive-check",
-                               "--unwinding-assertions", "--json-ui", "--trace", "--object-bits", str(job.get("object_bits", 12))]
+                               "--unwinding-assertions", "--drop-unused-functions", "--json-ui", "--trace", "--object-bits", str(job.get("object_bits", 12))]
+    cmd = [c for c in cmd if c not in job.get("noflags", [])] + ["--no-" + c[2:] for c in job.get("noflags", [])]
     if "unwind" in job:
         cmd += ["--unwind", str(job["unwind"])]
     solver = job.get("solver", "cadical")
@@ -392,6 +401,10 @@ def cbmc_job(u, sp, job, workdir, tier):
             o["trace_tail"] = trace_tail(r["trace"])
             o["prestate"] = trace_prestate(r["trace"])
         res["obligations"].append(o)
+    nobody = [o for o in res["obligations"] if ".no-body." in o["id"]]
+    if nobody:
+        res["reason"] = "lowered code calls a function without body or contract: " + "; ".join(o["description"] for o in nobody[:5])
+        return res
     if job.get("loops") and loop_step == 0:
         res["reason"] = "loop contract silently dropped: no loop-invariant step obligation generated"
         return res
